@@ -15,6 +15,10 @@
 (*            created) | "unversionable" (type without versioning props)    *)
 (*          | "sco5" (2.1 observable carrying versioning properties and a   *)
 (*            deterministic UUIDv5 id: its id-contributing props are locked)*)
+(*          | "sco4" (the same observable type with an id that is NOT a     *)
+(*            UUIDv5 -- given by its producer: nothing is locked; what the  *)
+(*            library concluded about one object of a type says nothing     *)
+(*            about the next)                                               *)
 (*   modified : stored value; for a dict without `modified`, hasmod = FALSE *)
 (*              and the effective old time is `created`                     *)
 (*   props : PropNames -> "absent" | value token                            *)
@@ -65,7 +69,7 @@ Apply(o, op) ==
   ELSE IF (DOMAIN ch) \cap (Unmodifiable \cup LockedFor(o)) # {} THEN Err("UnmodifiablePropertyError")
   ELSE IF op.k = "newmod" /\ UserEff(op.m, o.v) <= OldEff(o) THEN Err("InvalidValueError")
   ELSE LET np == NewProps(o, ch) IN
-       IF o.kind \in {"obj", "sco5"} /\ \E p \in Required : np[p] = "absent" THEN Err("MissingPropertiesError")
+       IF o.kind \in {"obj", "sco5", "sco4"} /\ \E p \in Required : np[p] = "absent" THEN Err("MissingPropertiesError")
        ELSE Ok([o EXCEPT !.modified = IF op.k = "newmod" THEN Store(op.m, o) ELSE Store(Fudge(OldEff(o), op.now, o.v), o),
                          !.hasmod = TRUE,
                          !.revoked = (op.k = "revoke"),
